@@ -10,12 +10,12 @@ namespace Holpy.C16
 
 theorem Store.get_set_same (s : Store) (i : Nat) (v : Int) : (s.set i v).get i = v := by
   induction s with
-  | nil => simp [Store.set, Store.get, List.lookup]
+  | nil => simp [Store.set, Store.get]
   | cons p rest ih =>
     obtain ⟨j, w⟩ := p
     simp only [Store.set]
     by_cases h : j = i
-    · subst h; simp [Store.get, List.lookup]
+    · subst h; simp [Store.get]
     · have hb : (j == i) = false := by simpa using h
       have hb' : (i == j) = false := by simpa using (Ne.symm h)
       simp only [hb, Bool.false_eq_true, if_false]
@@ -112,7 +112,7 @@ theorem oneVar_eval (f : Row) (x : Nat) (v : Nat → Int) (h : ∀ i, coeffAt f 
     · have : coeffAt f i = 0 := by
         by_contra hne; exact hi (h i hne)
       simp only [coeffAt] at this
-      simp [this]
+      rw [Nat.zero_add, this]; simp
   omega
 
 /-! ### minima and maxima -/
@@ -173,6 +173,7 @@ theorem sat_after_set (f : Row) (s : Store) (i : Nat) (x : Int)
   rw [Store.get_set, evalRow_upd]
   have he : evalExcept f 0 s i = evalRow f (upd s.get i 0) := evalExcept_eq f 0 s i
   rw [he] at hpos hneg
+  have hz := evalRow_upd_zero f s.get i
   generalize coeffAt f i = c at *
   generalize hE : evalRow f (upd s.get i 0) = e at *
   rcases Int.lt_trichotomy c 0 with hc | hc | hc
@@ -181,9 +182,7 @@ theorem sat_after_set (f : Row) (s : Store) (i : Nat) (x : Int)
     nlinarith
   · subst hc
     have h0 := hzero rfl
-    have := evalRow_upd_zero f s.get i
-    rw [hE] at this
-    simp at this
+    simp at hz
     omega
   · have h1 := hpos hc
     have h2 : c * (e / c) ≤ e := Int.mul_ediv_self_le (by omega)
